@@ -165,7 +165,36 @@ func (e *Engine) builtin(st *State, name string, args []Val, rt types.Type, in s
 		res := e.appOfType(name, rt, args...)
 		st.addEvent(Event{Kind: "append", Fn: "append", Args: args, Res: res, Pos: in.Pos()})
 		return res, ""
-	case "copy", "min", "max":
+	case "copy":
+		// copy between slices of known arrays with constant bounds: element-wise
+		if dst, ok := args[0].(*SliceVal); ok && dst.Arr != nil && dst.Arr.Cell != nil {
+			if src, ok := e.sliceElems(st, args[1]); ok {
+				lo, ok1 := dst.Lo.ConstInt()
+				dn, ok2 := dst.Len.ConstInt()
+				if ok1 && ok2 {
+					n := int64(len(src))
+					if dn < n {
+						n = dn
+					}
+					cur := e.cellVal(st, dst.Arr.Cell)
+					okAll := true
+					for i := int64(0); i < n; i++ {
+						nv, ok := updatePath(cur, append(append([]int(nil), dst.Arr.Path...), int(lo+i)), src[i])
+						if !ok {
+							okAll = false
+							break
+						}
+						cur = nv
+					}
+					if okAll {
+						st.mem[dst.Arr.Cell] = cur
+						return formInt(n), ""
+					}
+				}
+			}
+		}
+		return e.appOfType(name, rt, args...), ""
+	case "min", "max":
 		return e.appOfType(name, rt, args...), ""
 	case "print", "println", "delete", "close":
 		return nil, ""
@@ -207,7 +236,39 @@ func (e *Engine) model(st *State, name string, fn *ssa.Function, args []Val, rt 
 	switch name {
 	case "math.Pow":
 		return one(e.A.App("pow", rt, args[0], args[1]))
-	case "math.Sqrt", "math.Cbrt", "math.Abs", "math.Floor", "math.Ceil", "math.Round", "math.Exp", "math.Log", "math.Max", "math.Min", "math.Trunc":
+	case "math.Max", "math.Min":
+		// max/min of two numbers as a case split (NaN operands are outside the model)
+		x, okX := args[0].(*Form)
+		y, okY := args[1].(*Form)
+		if !okX || !okY {
+			return one(e.A.App(strings.ToLower(strings.TrimPrefix(name, "math.")), rt, args...))
+		}
+		cx, isCX := x.Const()
+		cy, isCY := y.Const()
+		pickX := func(c int) bool {
+			if name == "math.Max" {
+				return c >= 0
+			}
+			return c <= 0
+		}
+		if isCX && isCY {
+			if pickX(cx.Cmp(cy)) {
+				return one(x)
+			}
+			return one(y)
+		}
+		if x.Equal(y) {
+			return one(x)
+		}
+		opX, opY := ">=", "<"
+		if name == "math.Min" {
+			opX, opY = "<=", ">"
+		}
+		s1, s2 := st, st.clone()
+		s1.conds = append(s1.conds, &BoolVal{Op: opX, A: x, B: y})
+		s2.conds = append(s2.conds, &BoolVal{Op: opY, A: x, B: y})
+		return []Outcome{valueOutcome(s1, x), valueOutcome(s2, y)}, true
+	case "math.Sqrt", "math.Cbrt", "math.Abs", "math.Floor", "math.Ceil", "math.Round", "math.Exp", "math.Log", "math.Trunc":
 		return one(e.A.App(strings.ToLower(strings.TrimPrefix(name, "math.")), rt, args...))
 	case "fmt.Errorf", "errors.New":
 		d := "?"
